@@ -111,10 +111,22 @@ func (v *PolicyVerifier) VerifyRefFull(ctx context.Context, target string) (gith
 				return gitinterface.ZeroHash, err
 			}
 
-			// break because we've loaded the entry and don't need to fallthrough
-			break
+			// Entries at or before the last verified entry may have been
+			// revoked since it was recorded, which can change how the entries
+			// before it are judged (e.g., which state a violation must be
+			// restored to). Only resume from it if that hasn't happened.
+			revoked, err := hasRevocationAtOrBefore(v.repo, firstEntry)
+			if err != nil {
+				return gitinterface.ZeroHash, err
+			}
+			if !revoked {
+				// break because we've loaded the entry and don't need to fallthrough
+				break
+			}
+			slog.Debug("An entry verified before has been revoked since, verifying from first entry...")
+		} else {
+			slog.Debug("Cache doesn't have last verified entry for ref...")
 		}
-		slog.Debug("Cache doesn't have last verified entry for ref...")
 		fallthrough
 	case false:
 		firstEntry, _, err = rsl.GetFirstReferenceUpdaterEntryForRef(v.repo, target)
@@ -134,6 +146,36 @@ func (v *PolicyVerifier) VerifyRefFull(ctx context.Context, target string) (gith
 	v.trackLastVerifiedEntry = true
 	defer func() { v.trackLastVerifiedEntry = false }()
 	return latestEntry.GetTargetID(), v.VerifyRelativeForRef(ctx, firstEntry, latestEntry, target)
+}
+
+// hasRevocationAtOrBefore indicates if an annotation recorded after the
+// specified entry marks the entry itself or any entry before it as skipped.
+func hasRevocationAtOrBefore(repo gitstore.Storer, entry rsl.Entry) (bool, error) {
+	iterator, err := rsl.GetLatestEntry(repo)
+	if err != nil {
+		return false, err
+	}
+
+	for !iterator.GetID().Equal(entry.GetID()) {
+		if annotation, isAnnotation := iterator.(*rsl.AnnotationEntry); isAnnotation && annotation.Skip {
+			for _, revokedID := range annotation.RSLEntryIDs {
+				revokedEntry, err := rsl.GetEntry(repo, revokedID)
+				if err != nil {
+					return false, err
+				}
+				if revokedEntry.GetNumber() <= entry.GetNumber() {
+					return true, nil
+				}
+			}
+		}
+
+		iterator, err = rsl.GetParentForEntry(repo, iterator)
+		if err != nil {
+			return false, err
+		}
+	}
+
+	return false, nil
 }
 
 // VerifyRefFromEntry performs verification for the reference from a specific
